@@ -209,6 +209,11 @@ pub fn run_scenario(bench: &mut Bench, sc: &Scenario) -> ScenarioOutcome {
         outcome = o;
     }
     out.sim_ns = end_ns.saturating_sub(1_000_000_000);
+    // the deadline armed for a search must not be replaced, inside the same engine call, by a
+    // later one or by none at all
+    if last_state.borrow().searches.iter().any(|s| s.drops_deadline) {
+        out.violations.push(("deadline_dropped_inside_the_go".into(), "the timer was armed again inside the same go, before its deadline, with a later deadline or without one".into()));
+    }
     out.nodes = last_state.borrow().searches.iter().map(|s| s.nodes).sum();
     // a timer re-armed inside the same call continues the same overshoot
     let target_rec = target_rec.map(|r| {
